@@ -15,6 +15,7 @@ import (
 	"time"
 
 	"verif/mc"
+	"verif/mc/racepass"
 	"verif/shim/vsched"
 	"verif/shim/vtime"
 
@@ -267,6 +268,8 @@ func run(r *mc.Run) {
 		}
 		return
 	}
+	// the literal "no data races" clause: separate free-running -race pass (DESIGN.md 2.4)
+	racepass.Run(r, "logbuffer", r.Pick(3, 20), "log_buffer")
 	bound := r.Pick(2, 3)
 	// event patterns: payload 50 bytes => ~72 bytes per entry, 3 fit into 256; seconds chosen so that
 	// some appends force a rotation by time (gap > 1 minute) and equal timestamps get bumped
